@@ -43,7 +43,7 @@ Section Generic.
     end.
 End Generic.
 
-Definition st_snap (s : St.state) : list (list Z) := [St.cst s; St.cmem s].
+Definition st_snap (s : St.state) : list (list Z) := [St.cst s; St.cmem s; zb (St.est s) :: map zb (St.emem s)].
 Definition fe_snap (L : Fe.layout) (s : Fe.state) : list (list Z) := [[Fe.cf s]; [Fe.ci s]; [Fe.shown L s]].
 Definition li_snap (s : Li.state) : list (list Z) :=
   [[Li.va s]; [Li.vmin s]; [Li.vmax s]; [fst (Li.vlim s); snd (Li.vlim s)]; [fst (Li.vrng s); snd (Li.vrng s)]].
@@ -55,7 +55,7 @@ Inductive case :=
 | CaseSt (L : St.layout) (ops : list St.op) (init : list (list Z)) (os : list obs)
 | CaseFe (L : Fe.layout) (ops : list Fe.op) (init : list (list Z)) (os : list obs)
 | CaseLi (L : Li.layout) (ops : list Li.op) (init : list (list Z)) (os : list obs)
-| CaseCo (n : nat) (ops : list Co.op) (init : list (list Z)) (os : list obs).
+| CaseCo (kinds : list nat) (ops : list Co.op) (init : list (list Z)) (os : list obs).
 
 Definition check_case (c : case) : bool :=
   match c with
@@ -65,8 +65,8 @@ Definition check_case (c : case) : bool :=
       list_eqb zl_eqb (fe_snap L (Fe.init L)) i && run_check (Fe.step L) Fe.evs (fe_snap L) (Fe.init L) ops os
   | CaseLi L ops i os =>
       list_eqb zl_eqb (li_snap (Li.init L)) i && run_check (Li.step L) Li.evs li_snap (Li.init L) ops os
-  | CaseCo n ops i os =>
-      list_eqb zl_eqb (co_snap (Co.init n)) i && run_check Co.step Co.evs co_snap (Co.init n) ops os
+  | CaseCo k ops i os =>
+      list_eqb zl_eqb (co_snap (Co.init k)) i && run_check (Co.step k) Co.evs co_snap (Co.init k) ops os
   end.
 
 (* what the model does, for diagnosis in replay files *)
@@ -75,5 +75,5 @@ Definition model_result (c : case) : list (res * list (list Z)) :=
   | CaseSt L ops _ _ => run_trace (St.step L) st_snap (St.init L) ops
   | CaseFe L ops _ _ => run_trace (Fe.step L) (fe_snap L) (Fe.init L) ops
   | CaseLi L ops _ _ => run_trace (Li.step L) li_snap (Li.init L) ops
-  | CaseCo n ops _ _ => run_trace Co.step co_snap (Co.init n) ops
+  | CaseCo k ops _ _ => run_trace (Co.step k) co_snap (Co.init k) ops
   end.
